@@ -237,7 +237,14 @@ def mutate_path(v, p):
     rng = v.rng
     comps = p.split("/")
     kind = rng.randrange(15)
-    if kind == 14:                        # characters of format strings / regexes / globs in a name
+    if kind == 14 and rng.random() < 0.4:   # the same name in another unicode normal form / with a combining mark
+        import unicodedata
+        i = rng.randrange(max(1, len(comps) - 4), len(comps))
+        c0 = comps[i]
+        cands = [unicodedata.normalize("NFD", c0), unicodedata.normalize("NFC", c0), c0[:1] + "\u0301" + c0[1:], c0.replace("e", "e\u0301", 1), c0.replace("a", "\u00e4", 1)]
+        cands = [c for c in cands if c != c0] or [c0 + "\u0301"]
+        comps[i] = rng.choice(cands)
+    elif kind == 14:                        # characters of format strings / regexes / globs in a name
         i = rng.randrange(max(1, len(comps) - 4), len(comps))
         comps[i] = rng.choice(["{" + comps[i] + "}", comps[i] + "{", "{}{}", "{0}", "%s", comps[i] + "}", "{x}_" + comps[i], "\\d+", "(" + comps[i]])
     elif kind == 0 and len(comps) > 3:      # substitute a directory value
@@ -531,6 +538,35 @@ def tree_universe(v, nleaf=None):
     return leaves
 
 
+def prefix_pair(v, label, fields):
+    """two entities whose names at a FREE level are '<name>' and '<name>-2' ('-' sorts below '/': whole-string order
+    and segment order disagree), the second of ANOTHER leaf type when the configuration has one with the same keys
+    (so that a search over both unfolds into several typed searches).  Returns ([leaves], ['>' searches at that
+    level]) or None."""
+    from gen import re_is_free
+    rng = v.rng
+    keys = [k for k, _ in fields]
+    free = [i for i, k in enumerate(keys) if re_is_free(dict(v.tdict[label])[k]) and 1 < i < len(keys) - 1]
+    if not free:
+        return None
+    i = free[0]
+    name = fields[i][1]
+    if any(ch in name for ch in "[]?*>,") or not name:
+        return None
+    bt = label.split(v.sep)[0]
+    same = [l for l in v.labels if l != label and l.split(v.sep)[0] == bt and [k for k, _ in v.tdict[l]] == keys
+            and v.tdict[l][-1][0] == v.leaf_keys.get(bt)]
+    l2 = rng.choice(same) if same else label
+    lk, lr = v.tdict[l2][-1]
+    f2 = [(k, (name + rng.choice(["-2", ".b", "+x"]) if j == i else val)) for j, (k, val) in enumerate(fields[:-1])] + \
+         [(lk, v.value((lk, lr), concrete_only=True))]
+    segs = [val for _, val in fields]
+    searches = ["/".join(segs[:i] + [">", "**"]),
+                "/".join(segs[:i] + [">"] + ["*"] * (len(segs) - i - 1)),
+                "/".join(segs[:i - 1] + ["*", ">"] + ["*"] * (len(segs) - i - 1))]
+    return [(l2, f2)], searches
+
+
 def confusable_sibling(v, label, fields, cfg=None, with_or=False):
     """an entity whose FILE NAME is matched by the name pattern of a search it does not match: in a
     name like {assettype}_{asset}_{task}_{state}_{version}.{ext} the free field takes the value
@@ -659,6 +695,14 @@ def fam_tree(v, n, model):
                 leaves.append((label, cs[0]))
                 confusing.append(cs[1])
                 confusing.extend(cs[2])
+        prefix_searches = []
+        for label, fields in list(leaves)[:2]:
+            pp = prefix_pair(v, label, fields)
+            if pp:
+                for lf in pp[0]:
+                    if lf not in leaves:
+                        leaves.append(lf)
+                prefix_searches += pp[1]
         import oracle_inputs as _oi
         extra_l, pairs = _oi.lopsided(v, leaves, tuples=True)
         for lf in extra_l:
@@ -704,6 +748,22 @@ def fam_tree(v, n, model):
                 s_gt = "/".join(segs[:i] + [">", "**"])
                 ops.append({"op": "world", "w": wid, "do": "find_all", "s": s_gt})
                 ops.append({"op": "world", "w": wid, "do": "find_paths", "s": s_gt, "config": cfg})
+        for s in prefix_searches:
+            ops.append({"op": "world", "w": wid, "do": "find_paths", "s": s, "config": cfg})
+            ops.append({"op": "world", "w": wid, "do": "find_all", "s": s})
+        # hidden files next to the folder of a FREE level (the library writes such sidecars itself): a '*' at
+        # that level must not see them
+        for label, fields in rng.sample(leaves, min(2, len(leaves))):
+            from gen import re_is_free as _free
+            free_at = [i for i, (k, _) in enumerate(fields) if _free(dict(v.tdict[label])[k]) and i + 1 < len(fields)]
+            if free_at and cfg == default:
+                i = free_at[0]
+                anc = "/".join(val for _, val in fields[:i + 1])
+                ops.append({"op": "world", "w": wid, "do": "update", "sid": anc, "config": cfg, "data": [["comment", '"sidecar at a free level"']]})
+                star = "/".join([val for _, val in fields[:i]] + ["*"])
+                ops.append({"op": "world", "w": wid, "do": "find_paths", "s": star, "config": cfg})
+                ops.append({"op": "world", "w": wid, "do": "find_all", "s": star})
+                ops.append({"op": "world", "w": wid, "do": "children", "sid": "/".join(val for _, val in fields[:i])})
         for s in constant_searches(v, leaves, 6):
             if rng.random() < 0.5:      # the path Finder asked first about a level it does not serve
                 ops.append({"op": "world", "w": wid, "do": "find_paths", "s": s, "config": cfg})
@@ -822,7 +882,12 @@ def fam_history(v, n, model):
                      {"op": "world", "w": wid, "do": "get_data", "sid": target, "config": default, "enc": "str", "reuse": True},
                      {"op": "world", "w": wid, "do": "get_data_all", "sid": target, "enc": "str", "reuse": True},
                      {"op": "world", "w": wid, "do": "get_data_all", "sid": target, "enc": "str", "attributes": ["comment", "status"], "via": "sid_get_attr"},
-                     {"op": "world", "w": wid, "do": "getter_all", "s": parent + "/*", "enc": "str", "reuse": True}]
+                     {"op": "world", "w": wid, "do": "getter_all", "s": parent + "/*", "enc": "str", "reuse": True},
+                     {"op": "world", "w": wid, "do": "find_all", "s": target, "reuse": True, "via": "exists"},
+                     {"op": "world", "w": wid, "do": "find_paths", "s": parent + "/*", "config": default, "reuse": True, "via": "find_one"},
+                     {"op": "world", "w": wid, "do": "find_paths", "s": target, "config": default, "reuse": True, "via": "exists"},
+                     {"op": "world", "w": wid, "do": "get_data_all", "sid": target, "enc": "str", "attributes": ["comment", "status"], "via": "getter_get_attr", "reuse": True},
+                     {"op": "world", "w": wid, "do": "get_data", "sid": target, "config": default, "enc": "str", "attributes": ["status", "comment"], "via": "getter_get_attr", "reuse": True}]
             if star_v:
                 reads.append({"op": "world", "w": wid, "do": "get_next", "sid": star_v})
             ops += [dict(r) for r in reads]
